@@ -75,3 +75,39 @@ pub fn error_payload(_a: &Value) -> Value {
     json!({"scenario":"c08_error_payload","observed":{"deviations":bad.iter().take(4).collect::<Vec<_>>()},"violation":violation,
            "why": if violation {"an error reply above max_response_body_size was produced (or a fitting one replaced)"} else {""}})
 }
+
+/// args {lens: [entry lengths >= 36], max}: the batch builder from creation to finish. The array text of the accepted entries is
+/// '[' + entries joined by ',' + ']'; an entry is accepted exactly when the array closed after it still fits; what is finished never exceeds max.
+pub fn batch_total(a: &Value) -> Value {
+    let max = u(a, "max") as usize;
+    let lens: Vec<usize> = a["lens"].as_array().map(|v| v.iter().map(|x| x.as_u64().or_else(|| x.as_str().and_then(|s| s.parse().ok())).unwrap_or(36) as usize).collect()).unwrap_or_default();
+    let mut b = BatchResponseBuilder::new_with_limit(max);
+    let mut why = vec![];
+    let mut total = 1usize; // '['
+    let mut accepted_any = false;
+    for (i, l) in lens.iter().enumerate() {
+        let l = (*l).max(36);
+        let closed = total + l + 1; // entry + (',' or the closing ']')
+        let want = closed <= max;
+        let got = b.append(response_of_len(l)).is_ok();
+        if got != want {
+            why.push(format!("entry #{i} of {l} bytes: array closed after it would be {closed} bytes, limit {max}: accepted={got}"));
+        }
+        if !got {
+            break;
+        }
+        accepted_any = true;
+        total = closed;
+    }
+    let fin = MethodResponse::from_batch(b.finish());
+    let flen = fin.as_json().get().len();
+    if accepted_any && why.is_empty() {
+        if flen != total {
+            why.push(format!("finished array has {flen} bytes, the accepted entries make {total}"));
+        }
+        if flen > max {
+            why.push(format!("a batch reply of {flen} bytes was produced under a limit of {max}"));
+        }
+    }
+    json!({"scenario":"c08_batch_total","observed":{"final_len":flen},"violation":!why.is_empty(),"why":why.join(" | ")})
+}
